@@ -167,28 +167,47 @@ def to_puzz_link_url(height, width, pos):
     return "https://puzz.link/p?compass/{}/{}/{}".format(width, height, util.encode_array(problem))
 
 
+_HEX_DIGITS = "0123456789abcdef"
+
+
+def _is_hex(s):
+    return all(c in _HEX_DIGITS for c in s)
+
+
 def parse_puzz_link_url(url):
     width, height, body = url.split("/")[-3:]
+    if not (width.isdigit() and height.isdigit()):
+        raise ValueError("width and height must be decimal numbers")
     height = int(height)
     width = int(width)
+    if height <= 0 or width <= 0:
+        raise ValueError("board size must be positive")
 
     pos = 0
     i = 0
     res = []
     while i < len(body):
-        if ord(body[i]) >= ord("g"):
+        if "g" <= body[i] <= "z":
             pos += ord(body[i]) - ord("f")
             i += 1
         else:
             num = [-1, -1, -1, -1]
             for j in range(4):
+                if i >= len(body):
+                    raise ValueError("truncated clue")
                 if body[i] == "-":
+                    if i + 3 > len(body) or not _is_hex(body[i + 1 : i + 3]):
+                        raise ValueError("malformed two-digit number")
                     num[j] = int(body[i + 1 : i + 3], 16)
                     i += 3
                 else:
                     if body[i] != ".":
+                        if not _is_hex(body[i]):
+                            raise ValueError("unexpected character in clue")
                         num[j] = int(body[i], 16)
                     i += 1
+            if pos >= height * width:
+                raise ValueError("clue outside the board")
             res.append((pos // width, pos % width, num[0], num[2], num[1], num[3]))
             pos += 1
     return height, width, res
